@@ -289,10 +289,14 @@ func (rt *Transfer) recvGenerator(idx int, f *File) error {
 		if rt.Opts.DryRun {
 			return requestFullFile()
 		}
-		// A non-regular file with this name exists. Delete it so that we can
-		// create our file instead.
-		if err := rt.DestRoot.Remove(f.Name); err != nil {
-			return fmt.Errorf("unlinking to make room for regular file: %v", err)
+		// A non-regular file with this name exists. A directory needs to be
+		// deleted so that we can create our file instead; anything else is
+		// replaced atomically when the receiver renames the new file into
+		// place, and stays as it is should the transfer fail.
+		if st.IsDir() {
+			if err := rt.DestRoot.Remove(f.Name); err != nil {
+				return fmt.Errorf("unlinking to make room for regular file: %v", err)
+			}
 		}
 		return requestFullFile()
 	}
